@@ -47,7 +47,9 @@ var (
 
 func isBigClass(c string) bool { return strings.HasSuffix(c, "MiB") }
 
-func isTextKind(k string) bool { return k == kText || k == kEmbText || k == kResText || k == kHErr || k == "description" }
+func isTextKind(k string) bool {
+	return k == kText || k == kEmbText || k == kResText || k == kHErr || k == "description"
+}
 
 // classesFor lists the string classes a kind is exercised with in the given tier.
 func classesFor(kind, tier string) []string {
